@@ -318,6 +318,9 @@ class Deferred:
         return self.coro.__await__()
 
 
+_NOT_PASSED: Any = object()
+
+
 def generator_based(coro: Any) -> Any:
     """the same as a generator-based coroutine (`@types.coroutine`): awaitable, but not an instance of collections.abc.Awaitable"""
     import types
@@ -487,9 +490,13 @@ class Run:
         node = self.tree["nodes"][path]
         fault = self.case.get("fault")
 
-        async def method(self: Any) -> None:
+        async def method(self: Any, option: Any = _NOT_PASSED) -> None:
+            # (prepare()/start() with an optional parameter of their own, as a method called from elsewhere too may have: the
+            # framework calls them without arguments)
             from asphalt.core import Context, current_context
 
+            if option is not _NOT_PASSED:
+                raise AssertionError(f"{phase}() of {path!r} was called with an argument: {type(option).__name__}")
             run.log("phase-begin", path, phase=phase)
             try:
                 if node.get("publishes_self") == phase:
@@ -1147,7 +1154,9 @@ def check_fault(run: Run) -> tuple[list[dict[str, Any]], dict[str, int]]:
         inc("ancestors_checked", len(anc))
     else:
         inc("timeout_runs")
-        t_fail = float(timeout)
+        t_fail = float("inf") if timeout is None else float(timeout)
+        if timeout is None:
+            inc("runs_without_any_timeout_that_take_longer_than_the_default")
         if t_fail > sched["total"]:
             inc("timeout_not_expiring_runs")
             V2, c2 = check_success(run)
